@@ -14,6 +14,9 @@ def stepC03 (toks : List String) : Option String :=
   | ["q_ir", l, x] => do let l ← parseRngs l; let x ← parseRng x; pure (showBool (intersectsRange l x))
   | ["q_int", l, r] => do let l ← parseRngs l; let r ← parseRngs r; pure (showBool (intersects l r))
   | ["q_sub", l, r] => do let l ← parseRngs l; let r ← parseRngs r; pure (showBool (containsAll l r))
+  | ["q_mindepth", q, w, l] => do
+    let q ← qtyOf q; let w ← w.toNat?; let l ← parseRngs l
+    pure (toString (computeMinDepth q w l))
   | ["q_fl", l] => do
     -- first index | exclusive last index | same ranges under another declared depth: equal | a MOC and its complement: never equal
     let l ← parseRngs l
